@@ -41,9 +41,9 @@ func (*prop) Assumptions() []string {
 }
 func (*prop) MinDistinct(tier string) int64 {
 	if tier == "thorough" {
-		return 150_000
+		return 80000
 	}
-	return 5_000
+	return 2500
 }
 
 var pathPool = []string{
